@@ -177,11 +177,11 @@ func c10JudgeE2E(tree *c10Tree, l *c10Layout, c *c10E2ECase, ps string, tee *c10
 	// budget from the statement, micro-CPUs; the code may be up to the rounding band above it
 	bc := &c10BudCase{N: l.N, Thr: c.Thr, Min: c.Min, LS: c.LSUsage * 1e6, LSR: c10E2ELSEUsage * 1e6, BE: c10E2EBEUsage * 1e6, Sys: c10E2ESysUsage * 1e6}
 	exact := c10BudExact(bc)
-	// every cpuset.cpus file that was written: distinct existing unprotected CPUs
+	// every cpuset.cpus file that was written: distinct existing unprotected CPUs.
 	// what the agent finally decided per cpuset.cpus file (last update handed to the executor) and what the file holds
 	written := map[string]bool{}
 	last := map[string]string{}
-	quotaWritten := false
+	quotaWritten, lastQuota := false, ""
 	for _, w := range tee.writes {
 		if w.Type == tree.cpusetType {
 			written[w.Path] = true
@@ -189,6 +189,7 @@ func c10JudgeE2E(tree *c10Tree, l *c10Layout, c *c10E2ECase, ps string, tee *c10
 		}
 		if w.Type == tree.quotaType && w.Path == tree.quotaFile {
 			quotaWritten = true
+			lastQuota = w.Value
 		}
 	}
 	sets := map[string][]int{}
@@ -214,6 +215,10 @@ func c10JudgeE2E(tree *c10Tree, l *c10Layout, c *c10E2ECase, ps string, tee *c10
 	}
 	if c.Quota {
 		cur := c10ReadFile(tree.quotaFile)
+		if quotaWritten && cur != lastQuota {
+			cnt("file_differs_from_last_update", 1) // judge the agent's decision, not what the executor made of it
+			cur = lastQuota
+		}
 		w, err := strconv.ParseInt(cur, 10, 64)
 		if err != nil {
 			add("C10|e2e|quota|malformed-value", fmt.Sprintf("cpu.cfs_quota_us holds %q", cur))
